@@ -76,6 +76,8 @@ pub struct Rw<'a> {
     used_closures: BTreeSet<usize>,
     used_hints: BTreeSet<usize>,
     used_annots: BTreeSet<String>,
+    local_byte_consts: BTreeSet<String>,
+    src_file: String,
 }
 
 fn sel(tags: &[String], want: &[String]) -> bool {
@@ -213,11 +215,28 @@ impl<'a> Rw<'a> {
                     }
                     // associated type of one of blsful's own impls (e.g. Self::Error)
                     let mut found: Option<String> = None;
-                    for ((sn, _tn), m) in self.idx.impl_types.iter() {
+                    let mut cands: Vec<String> = vec![];
+                    let cur_tr: Option<String> = match (&tr, &self.owner) {
+                        (Some(t), _) => Some(t.clone()),
+                        (None, Owner::TraitImpl(_, _, t)) => Some(t.clone()),
+                        _ => None,
+                    };
+                    for ((sn, tn), m) in self.idx.impl_types.iter() {
                         if sn == t {
                             if let Some(x) = m.get(&name) {
-                                found = Some(x.clone());
+                                if Some(tn) == cur_tr.as_ref() {
+                                    found = Some(x.clone());
+                                }
+                                cands.push(x.clone());
                             }
+                        }
+                    }
+                    if found.is_none() {
+                        cands.dedup();
+                        if cands.len() == 1 {
+                            found = Some(cands[0].clone());
+                        } else if cands.len() > 1 {
+                            die(&format!("unsupported: ambiguous associated type `{}::{}` in {}", t, name, self.fs.key));
                         }
                     }
                     if let (Some(x), true) = (found, name.chars().next().map(|c| c.is_uppercase()).unwrap_or(false) && !is_screaming(&name)) {
@@ -490,7 +509,7 @@ impl<'a> VisitMut for Rw<'a> {
                 let s = it.to_token_stream().to_string();
                 if s.contains("RngCore") || s.contains("CryptoRng") {
                     self.bump("E3.rng");
-                    *ty = parse_ty("Rng");
+                    *ty = parse_ty("ChaCha20Rng");
                 } else {
                     die(&format!("unsupported: impl Trait type `{}` in {}", s, self.fs.key));
                 }
@@ -547,14 +566,39 @@ impl<'a> VisitMut for Rw<'a> {
                         None => die(&format!("unsupported: cannot resolve path `{}` in {}", e.to_token_stream(), self.fs.key)),
                     }
                 }
+                // E4b: associated constants of opaque dependency types become accessor calls
+                if ep.qself.is_none() && ep.path.segments.len() == 2 {
+                    let a = ep.path.segments[0].ident.to_string();
+                    let b = ep.path.segments[1].ident.to_string();
+                    if is_screaming(&b) && (OPAQUE_COPY.contains(&a.as_str()) || a == "G1Projective" || a == "G2Projective") {
+                        self.bump("E4.const_accessor");
+                        *e = parse_ex(&format!("{}::{}()", a, b));
+                        return;
+                    }
+                }
                 // free byte-string constants become accessor calls (E4)
                 if ep.qself.is_none() && ep.path.segments.len() == 1 {
                     let id = ep.path.segments[0].ident.to_string();
                     if is_screaming(&id) {
+                        // a byte-string const declared inside this function shadows file-level ones
+                        if self.local_byte_consts.contains(&id) {
+                            self.bump("E4.const_accessor");
+                            *e = parse_ex(&format!("{}__{}()", self.fs.key.replace("::", "__"), id));
+                            return;
+                        }
                         if let Some(cs) = self.idx.consts.get(&id) {
                             if cs.iter().any(|c| c.text.contains("& [u8]") || c.text.contains("&[u8]") || c.text.contains("&'static [u8]")) {
                                 self.bump("E4.const_accessor");
-                                *e = parse_ex(&format!("{}()", id));
+                                if cs.len() == 1 {
+                                    *e = parse_ex(&format!("{}()", id));
+                                } else {
+                                    // several files define it: the one of the current file is meant
+                                    let stem = self.src_file.rsplit('/').next().unwrap_or("").trim_end_matches(".rs").to_string();
+                                    if !cs.iter().any(|c| c.file == self.src_file) {
+                                        die(&format!("unsupported: const `{}` not defined in {} (function {})", id, self.src_file, self.fs.key));
+                                    }
+                                    *e = parse_ex(&format!("{}__{}()", stem, id));
+                                }
                                 return;
                             }
                         }
@@ -650,8 +694,8 @@ impl<'a> VisitMut for Rw<'a> {
                 }
             }
             Expr::Binary(b) => {
-                visit_mut::visit_expr_mut(self, &mut b.left);
-                visit_mut::visit_expr_mut(self, &mut b.right);
+                self.visit_expr_mut(&mut b.left);
+                self.visit_expr_mut(&mut b.right);
                 let is_ref = |x: &Expr, rp: &BTreeSet<String>| match x {
                     Expr::Reference(_) => true,
                     Expr::Path(p) => p.path.get_ident().map(|i| rp.contains(&i.to_string())).unwrap_or(false),
@@ -705,6 +749,13 @@ impl<'a> VisitMut for Rw<'a> {
         let old: Vec<Stmt> = std::mem::take(&mut b.stmts);
         let mut out: Vec<Stmt> = vec![];
         for mut s in old {
+            // E4: a local byte-string const is replaced by its extracted accessor
+            if let Stmt::Item(Item::Const(c)) = &s {
+                if self.local_byte_consts.contains(&c.ident.to_string()) {
+                    self.bump("E4.local_const_dropped");
+                    continue;
+                }
+            }
             // E8: debug assertions
             if let Stmt::Macro(sm) = &s {
                 let name = sm.mac.path.segments.last().map(|s| s.ident.to_string()).unwrap_or_default();
@@ -1124,7 +1175,18 @@ pub fn emit_fn(idx: &Index, fs: &FnSpec, tags: &[String], debug_view: bool, star
         used_closures: BTreeSet::new(),
         used_hints: BTreeSet::new(),
         used_annots: BTreeSet::new(),
+        local_byte_consts: BTreeSet::new(),
+        src_file: String::new(),
     };
+    rw.src_file = src.file.clone();
+    for st in &block.stmts {
+        if let Stmt::Item(Item::Const(c)) = st {
+            let t = c.ty.to_token_stream().to_string();
+            if t.contains("[u8]") && t.starts_with('&') {
+                rw.local_byte_consts.insert(c.ident.to_string());
+            }
+        }
+    }
     // implementor idents declared on the function itself (free helpers: `C: BlsSignatureImpl`)
     for p in sig.generics.type_params() {
         for b in &p.bounds {
@@ -1407,6 +1469,8 @@ pub fn emit_type(idx: &Index, ts: &TypeSpec, stats: &mut BTreeMap<String, usize>
         used_closures: BTreeSet::new(),
         used_hints: BTreeSet::new(),
         used_annots: BTreeSet::new(),
+        local_byte_consts: BTreeSet::new(),
+        src_file: String::new(),
     };
     let mut out = String::new();
     out.push_str(&format!("// extracted from src/{}:{} (type {})\n", src.file, src.line, ts.name));
@@ -1503,6 +1567,15 @@ pub fn emit_const(idx: &Index, cs: &ConstSpec, stats: &mut BTreeMap<String, usiz
             (v[0].text.clone(), v[0].file.clone(), v[0].line, format!("{}__{}__{}", imp, tr, cs.name))
         }
     };
+    // plain integer constants are copied as they are
+    if let Ok(ic) = parse_str::<ItemConst>(&text) {
+        if let Expr::Lit(ExprLit { lit: Lit::Int(_), .. }) = &*ic.expr {
+            let ty = ic.ty.to_token_stream().to_string();
+            let val = ic.expr.to_token_stream().to_string();
+            *stats.entry("E4.int_const".to_string()).or_insert(0) += 1;
+            return format!("// extracted from src/{}:{} (const {})\npub const {}: {} = {};\n", file, line, cs.name, cs.name, ty, val);
+        }
+    }
     // parse out the literal
     let lit_bytes = extract_bytes(&text).unwrap_or_else(|| die(&format!("unsupported: const `{}` is not a byte-string/array literal: {}", cs.name, text)));
     *stats.entry("E4.const".to_string()).or_insert(0) += 1;
